@@ -168,6 +168,31 @@ def r4(ctx, rep):
                     rep.bad(key, f"`{show(n)}` in {f['path']} is not inside a `while <name already used>` loop: the generated name (`{'table_N' if gen == 'table_name' else '_expr_N'}`) is not checked against "
                             "user tables / columns of the same name, so a user object named like a generated one is captured or a column is dropped as a duplicate", file=f["file"], line=n["l"], fn=f["path"])
     rep.check(n_sites >= 5, "gen-sites", f"expected >= 5 NameGenerator::gen call sites in the SQL back-end, found {n_sites}")
+    # the reviewed reason for ensure_column_name rests on anchor_split: the name that yields in a clash must be the generated one
+    a = syn.fn("pq::anchor::anchor_split", crate="prqlc")
+    pre = {}
+    loops = []
+    for st in a["body"]["s"]:
+        if st.get("k") == "local" and st.get("init") is not None:
+            txt = show(st["init"], maxdepth=12)
+            if ".gen()" not in txt and "ensure_column_name" not in txt:
+                pre[show(st["pat"]).replace("mut ", "")] = st
+        if st.get("k") == "for":
+            for n in walk(st["body"]):
+                if n.get("k") == "while" and any(m.get("k") == "mcall" and m["m"] == "gen" for m in walk(n["body"])):
+                    loops.append((n, dict(pre)))
+            break
+    ok = False
+    for w, before in loops:
+        c = show(w["c"], maxdepth=12)
+        sets = [nm for nm, st in before.items() if f"{nm}.contains(" in c]
+        # one set filled inside the loop (names given so far), one collected BEFORE any name is generated (names columns already have)
+        pre_filled = [nm for nm in sets if "collect" in show(before[nm]["init"], maxdepth=14) and "cols_at_split" in show(before[nm]["init"], maxdepth=14)]
+        ok = ok or (len(sets) >= 2 and bool(pre_filled))
+    rep.check(ok, "gen:prqlc::sql::pq::anchor::anchor_split:user-names-first",
+              "anchor_split regenerates a clashing name in column order, so when an unnamed expression precedes a user column called `_expr_N` it is the USER's column that is renamed; "
+              "the loop must also test a set of the names the split's columns had before any name was generated, and only rename generated names",
+              file=a["file"], line=a["l"], fn=a["path"])
 
 
 def r5(ctx, rep):
@@ -201,6 +226,32 @@ def r5(ctx, rep):
     rep.check(n >= 4, "ctor-sites", f"expected >= 4 Ident constructor calls, found {n}")
 
 
+def r6(ctx, rep):
+    import json
+    import os
+    rep.rule("C09.R6", "the shared keyword table contains every word the engines reserve (bare use would not mean the column)", floor=200)
+    syn = ctx.syn
+    f = syn.fn("keywords::sql_keywords", crate="prqlc")
+    ext = [show(n["a"][0]) for n in walk(f["body"]) if n.get("k") == "mcall" and n["m"] == "extend" and n["a"] and n["a"][0].get("k") == "path"]
+    consts = {last_seg(st["path"]): st for st in syn.statics if "sql/keywords.rs" in st["file"] and st["kind"] == "const"}
+    union = set()
+    for name in ext:
+        st = consts.get(name)
+        if st is None:
+            rep.bad(f"table:{name}", f"sql_keywords extends the set with `{name}`, which is not a const array of keywords.rs", file=f["file"], line=f["l"], fn=f["path"])
+            continue
+        union |= {lit_val(n) for n in walk(st["init"]) if n.get("k") == "lit"}
+    rep.check(len(ext) >= 4, "tables", f"sql_keywords must be built from the engine tables (found {ext})", file=f["file"], line=f["l"], fn=f["path"])
+    ora = json.load(open(os.path.join(os.path.dirname(os.path.dirname(os.path.dirname(os.path.abspath(__file__)))), "oracles", "sql_reserved.json")))
+    for group, words in ora.items():
+        if group.startswith("_"):
+            continue
+        for w in words:
+            why = "bare, it is a niladic function call, not the column" if group == "niladic_functions" else f"it is reserved ({group})"
+            rep.check(w in union, f"reserved:{group}:{w}", f"`{w}` is missing from the keyword tables sql_keywords() is built from: a column or table of that name is emitted unquoted although {why}",
+                      file=f["file"], line=f["l"], fn=f["path"])
+
+
 def run(ctx, rep):
-    for r in (r1, r2, r3, r4, r5):
+    for r in (r1, r2, r3, r4, r5, r6):
         rep.guard(r, ctx)
